@@ -50,14 +50,32 @@ impl Interface {
     }
 
     pub fn all_base_interfaces(&self) -> Vec<&Interface> {
-        let mut all_bases = self.base_interfaces();
-        all_bases.extend(self.bases.iter().flat_map(|type_ref| type_ref.all_base_interfaces()));
+        // The transitive bases of every interface are computed once per call and remembered: in a dense hierarchy
+        // (interfaces that inherit from many interfaces which inherit from each other) expanding every base again
+        // each time it is reached takes time exponential in the number of interfaces.
+        fn collect<'a>(
+            interface: &'a Interface,
+            known: &mut std::collections::HashMap<String, Vec<&'a Interface>>,
+        ) -> Vec<&'a Interface> {
+            let identifier = interface.parser_scoped_identifier();
+            if let Some(all_bases) = known.get(&identifier) {
+                return all_bases.clone();
+            }
 
-        // Filter duplicates created by diamond inheritance in-place.
-        let mut seen_identifiers = std::collections::HashSet::new();
-        all_bases.retain(|base| seen_identifiers.insert(base.parser_scoped_identifier()));
+            let mut all_bases = interface.base_interfaces();
+            for base in interface.base_interfaces() {
+                all_bases.extend(collect(base, known));
+            }
 
-        all_bases
+            // Filter duplicates created by diamond inheritance in-place.
+            let mut seen_identifiers = std::collections::HashSet::new();
+            all_bases.retain(|base| seen_identifiers.insert(base.parser_scoped_identifier()));
+
+            known.insert(identifier, all_bases.clone());
+            all_bases
+        }
+
+        collect(self, &mut std::collections::HashMap::new())
     }
 }
 
